@@ -335,10 +335,15 @@ func (ep *ExportingProcess) NewTemplateID() uint16 {
 // createAndSendIPFIXMsg takes in a set as input, creates the IPFIX message, and sends it out.
 // TODO: This method will change when we support sending multiple sets.
 func (ep *ExportingProcess) createAndSendIPFIXMsg(set entities.Set) (int, error) {
+	// The sequence number is read here by the template refresh goroutine (UDP) while the
+	// application updates it when sending data sets: access it atomically.
+	var seqNumber uint32
 	if set.GetSetType() == entities.Data {
-		ep.seqNumber = ep.seqNumber + set.GetNumberOfRecords()
+		seqNumber = atomic.AddUint32(&ep.seqNumber, set.GetNumberOfRecords())
+	} else {
+		seqNumber = atomic.LoadUint32(&ep.seqNumber)
 	}
-	bytesSlice, err := CreateIPFIXMsg(set, ep.obsDomainID, ep.seqNumber, time.Now())
+	bytesSlice, err := CreateIPFIXMsg(set, ep.obsDomainID, seqNumber, time.Now())
 	if err != nil {
 		return 0, err
 	}
